@@ -18,8 +18,9 @@ REL_TOL = 1e-5          # float32 layers vs float64 oracles: tol = REL_TOL * sca
 F32_EPS = float(np.finfo(np.float32).eps)
 
 
-def scale_of(*arrays):
-  m = 1.0
+def scale_of(*arrays, **kw):
+  """Largest magnitude involved, floored at 1 (floor=... overrides: scale-equivariant code judged on micro inputs)."""
+  m = float(kw.get("floor", 1.0))
   for a in arrays:
     if a is None:
       continue
